@@ -270,11 +270,11 @@ class ProtoSubroutine:
         return result
 
     def instantiate(self, app_id: int, arguments: Dict[str, int]) -> None:
-        commands: List[Union[ICmd, BranchLabel]] = []
+        # All values are looked up first: a call that fails (a value is missing) changes nothing.
+        # (Branch labels have no operands to fill in, but they stay part of the subroutine.)
+        filled: List[Tuple[ICmd, List[T_ProtoOperand]]] = []
         for cmd in self.commands:
             if not isinstance(cmd, ICmd):
-                # Branch labels have no operands to fill in, but they stay part of the subroutine
-                commands.append(cmd)
                 continue
             ops: List[T_ProtoOperand] = []
             for op in cmd.operands:
@@ -282,8 +282,9 @@ class ProtoSubroutine:
                     ops.append(arguments[op.name])
                 else:
                     ops.append(op)
-            cmd.operands = ops
-            commands.append(cmd)
+            filled.append((cmd, ops))
 
-        self.commands = commands
+        for cmd, ops in filled:
+            cmd.operands = ops
+        self.commands = list(self.commands)
         self._app_id = app_id
